@@ -318,11 +318,11 @@ PROPS = {
     },
     "C16": {
         "rule": ("each case: two domains, eight forests (MT int x2, MT real, MT bool, EV+ sets; identity-reduced relation and int/bool "
-                 "sets over the second domain) with random policies and a dozen held edges; 8-16 (quick) or all 22 (thorough) misuse "
+                 "sets over the second domain) with random policies and a dozen held edges; 8-16 (quick) or all 23 (thorough) misuse "
                  "classes in random order: operands/result from different domains (DOMAIN_MISMATCH), set/relation mix and range or "
                  "labeling mismatch (TYPE_MISMATCH), createConstant with an edge of another forest (FOREST_MISMATCH), constants / "
                  "minterm values / a PLUS result outside the terminal range (VALUE_OVERFLOW, the last one deep in the diagram after "
-                 "part of the result was built), zero divisor in one deep leaf for DIVIDE and MODULO (DIVIDE_BY_ZERO), infinite "
+                 "part of the result was built), zero divisor in one deep leaf for DIVIDE and MODULO, and for EV+ DIVIDE a zero divisor under a +infinity numerator inside a row of finite values (DIVIDE_BY_ZERO), infinite "
                  "subtrahend (SUBTRACT_INFINITY), dereferencing an exhausted iterator (INVALID_ITERATOR), evaluating with a minterm of "
                  "another domain or shape (DOMAIN_MISMATCH), and classes for which only 'some MEDDLY::error' is required (getElement on "
                  "a non-index set, edges of a destroyed forest as operand / result / evaluated, CROSS of relations, MAX_RANGE with the "
